@@ -827,3 +827,39 @@ C20_SYNERGY = dict(
             ("has no control for treatment", 1)],
 )
 ALL += [C20_EFFECT_MAP, C20_EFFECT_ARRAY, C20_SYNERGY]
+
+# ---- C20: models/main.py ModelEvaluation.mse / mse_variance / inter_chain_mse_variance (vocabulary: end of Model/Metrics.v) ----
+# A ModelEvaluation object is Metrics.evaluation (its four stored arrays); the properties predictions / observations / chain_ids
+# are translated themselves (`return self._x`) and the methods call those translations.  predictions is (n_experiments x n_thetas)
+# = the list of its rows; `ncols` is predictions.shape[1] (defined also for zero rows), needed by the column mask only.
+_QM = "list list " + _QC
+_EV_FIELDS = {"_predictions": ("evaluation", _QM, "ev_preds {obj}", "set_ev_preds {obj} {val}"),
+              "_observations": ("evaluation", _QS, "ev_obs {obj}", "set_ev_obs {obj} {val}"),
+              "_chain_ids": ("evaluation", _ZS, "ev_chains {obj}", "set_ev_chains {obj} {val}")}
+_C20_EV = dict(file="src/batchie/models/main.py", cls="ModelEvaluation", out="SrcMetrics.v", imports="Model.Metrics",
+               pyparams=["self"], params=[("self", "evaluation")], vars={}, overload=True)
+C20_EV_PREDICTIONS = dict(_C20_EV, func="predictions", name="src_ev_predictions", returns=_QM, fields=_EV_FIELDS)
+C20_EV_OBSERVATIONS = dict(_C20_EV, func="observations", name="src_ev_observations", returns=_QS, fields=_EV_FIELDS)
+C20_EV_CHAIN_IDS = dict(_C20_EV, func="chain_ids", name="src_ev_chain_ids", returns=_ZS, fields=_EV_FIELDS)
+_EV_NUMPY = [
+    ("self.predictions", "!src_ev_predictions self'", _QM),        # the translated properties
+    ("self.observations", "!src_ev_observations self'", _QS),
+    ("self.chain_ids", "!src_ev_chain_ids self'", _ZS),
+    ("__o[:, None]", "{o}", "colvec", {"o": _QS}),                  # the (n, 1) view of a 1-d array
+    ("__p[:, __s]", "!np_select_cols ncols {s} {p}", _QM, {"p": _QM, "s": _BS}),
+    ("__a - __c", "!np_sub_col {a} {c}", _QM, {"a": _QM, "c": "colvec"}),
+    ("__x ** 2", "np_square2 {x}", _QM, {"x": _QM}),
+    ("__x.mean()", "!np_mean_all {x}", _QC, {"x": _QM}),
+    ("__x.mean(axis=1)", "!np_mean_rows {x}", _QS, {"x": _QM}),
+    ("np.var(__x)", "!np_var {x}", _QC, {"x": _QS}),
+    ("np.unique(__a)", "sorted_unique {a}", _ZS, {"a": _ZS}),
+    ("__a == __v", "np_eq_scalar {a} {v}", _BS, {"a": _ZS, "v": "Z"}),
+    ("np.array(__l)", "{l}", _QS, {"l": _QS}),                      # of a Python list of floats
+]
+C20_EV_MSE = dict(_C20_EV, func="mse", name="src_ev_mse", returns=_QC, prims=_EV_NUMPY)
+C20_EV_MSE_VARIANCE = dict(_C20_EV, func="mse_variance", name="src_ev_mse_variance", returns=_QC, prims=_EV_NUMPY)
+C20_EV_INTER_CHAIN = dict(
+    _C20_EV, func="inter_chain_mse_variance", name="src_ev_inter_chain_mse_variance", returns=_QC, prims=_EV_NUMPY,
+    params=[("ncols", "nat"), ("self", "evaluation")],
+    vars={"mses": _QS, "chain_id": "Z", "selection_vector": _BS, "chain_mse": _QC})
+ALL += [C20_EV_PREDICTIONS, C20_EV_OBSERVATIONS, C20_EV_CHAIN_IDS, C20_EV_MSE, C20_EV_MSE_VARIANCE, C20_EV_INTER_CHAIN]
